@@ -8,6 +8,19 @@
 (*   map:      cfg = [op |-> "map", cols |-> <<c1, ...>>]                  *)
 (*   distinct: cfg = [op |-> "distinct"]                                   *)
 (*   etbuf:    cfg = [op |-> "etbuf"]                                      *)
+(*   orderby:  cfg = [op |-> "orderby", keys |-> <<c..>>, dirs |-> <<1|-1..>>,*)
+(*             limit |-> n | -1]  (order_sensitive_transform.go): buffers  *)
+(*             the changelog, drops watermarks, emits the rows sorted by   *)
+(*             key (then by all values) at end of stream, at most n        *)
+(*   limit:    cfg = [op |-> "limit", n |-> n]  (limit.go): forwards the   *)
+(*             first n records and stops its source                       *)
+(*   lookup:   cfg = [op |-> "lookup", col |-> c, table |-> <<rows>>,      *)
+(*             jcol |-> j]  (lookup_join.go): for every source record the  *)
+(*             joined side is re-run with the record in scope; here the    *)
+(*             joined side is the rows of a table whose column j equals    *)
+(*             the record's column c                                      *)
+(*   unnest:   cfg = [op |-> "unnest", col |-> c]  (unnest.go): one output *)
+(*             row per element of the list in column c                    *)
 (* Layer I: XStep / XEos; Layer P: XBatch on the consolidated input.       *)
 (***************************************************************************)
 EXTENDS Changelog
@@ -55,4 +68,78 @@ BufferReleased(ins, outs, done) ==
   /\ \A i, j \in 1..Len(outs) : (i < j /\ IsRec(outs[i]) /\ IsRec(outs[j]) /\ outs[i].t # 0 /\ outs[j].t # 0
                                   /\ ~\E k \in i..j : IsWm(outs[k])) => outs[i].t <= outs[j].t   \* event-time order within a release
   /\ done => \A m \in {ins[i] : i \in {k \in 1..Len(ins) : IsRec(ins[k])}} : CountIn(outs, m) = CountIn(ins, m)
+
+(* ---------------------------------------------------------------- order by ---------------------------------------------------------------- *)
+Sign3(n) == IF n < 0 THEN -1 ELSE IF n > 0 THEN 1 ELSE 0
+VRank(v) == CASE v.t = "null" -> 0 [] v.t = "int" -> 1 [] v.t = "bool" -> 3 [] v.t = "str" -> 4 [] v.t = "time" -> 5 [] v.t = "list" -> 7
+StrOrd(x) == CASE x = "a" -> 1 [] x = "b" -> 2 [] x = "c" -> 3 [] OTHER -> 9
+RECURSIVE VCmp(_, _)
+VCmp(a, b) == IF VRank(a) # VRank(b) THEN Sign3(VRank(a) - VRank(b))
+              ELSE CASE a.t = "null" -> 0 [] a.t = "int" -> Sign3(a.i - b.i) [] a.t = "str" -> Sign3(StrOrd(a.s) - StrOrd(b.s)) [] a.t = "time" -> Sign3(a.ts - b.ts)
+                     [] a.t = "bool" -> Sign3((IF a.b THEN 1 ELSE 0) - (IF b.b THEN 1 ELSE 0))
+                     [] a.t = "list" -> LET n == Min2(Len(a.l), Len(b.l))
+                                            D == {i \in 1..n : VCmp(a.l[i], b.l[i]) # 0} IN
+                                        IF D = {} THEN Sign3(Len(a.l) - Len(b.l)) ELSE VCmp(a.l[CHOOSE i \in D : \A j \in D : i <= j], b.l[CHOOSE i \in D : \A j \in D : i <= j])
+(* the total order order_sensitive_transform.go sorts by: the keys with their directions, then all values ascending *)
+RowCmp(cfg, x, y) ==
+  LET K == {i \in 1..Len(cfg.keys) : VCmp(x[cfg.keys[i]], y[cfg.keys[i]]) # 0}
+      V == {i \in 1..Len(x) : VCmp(x[i], y[i]) # 0} IN
+  IF K # {} THEN LET i == CHOOSE k \in K : \A j \in K : k <= j IN VCmp(x[cfg.keys[i]], y[cfg.keys[i]]) * cfg.dirs[i]
+  ELSE IF V # {} THEN LET i == CHOOSE k \in V : \A j \in V : k <= j IN VCmp(x[i], y[i])
+  ELSE 0
+RECURSIVE SortedRows(_, _)
+SortedRows(cfg, bag) ==      \* the rows of a bag with positive multiplicities, in order, each repeated by its multiplicity
+  LET D == {r \in DOMAIN bag : bag[r] > 0} IN
+  IF D = {} THEN <<>>
+  ELSE LET m == CHOOSE r \in D : \A q \in D : RowCmp(cfg, r, q) <= 0 IN
+       [i \in 1..bag[m] |-> m] \o SortedRows(cfg, [r \in D \ {m} |-> bag[r]])
+TakeN(s, n) == IF n < 0 \/ Len(s) <= n THEN s ELSE SubSeq(s, 1, n)
+OrderByRows(cfg, bag) == TakeN(SortedRows(cfg, bag), cfg.limit)
+OrderByStep(cfg, st, msg) == [st |-> IF IsRec(msg) THEN BagPut(st, msg.v, Sgn(msg)) ELSE st, out |-> <<>>]
+OrderByEos(cfg, st) == [st |-> st, out |-> [i \in 1..Len(OrderByRows(cfg, st)) |-> Rec(OrderByRows(cfg, st)[i], FALSE, 0)]]
+RECURSIVE BagOfRows(_)
+BagOfRows(s) == IF s = <<>> THEN <<>> ELSE BagPut(BagOfRows(Tail(s)), Head(s), 1)
+OrderByBatch(cfg, inBag) == BagOfRows(OrderByRows(cfg, inBag))
+(* the emitted sequence itself is in order (a statement about the sequence, not only about the bag) *)
+InOrder(cfg, outs) == \A i, j \in 1..Len(outs) : (i < j /\ IsRec(outs[i]) /\ IsRec(outs[j])) => RowCmp(cfg, outs[i].v, outs[j].v) <= 0
+
+(* ---------------------------------------------------------------- limit ------------------------------------------------------------------- *)
+(* state = number of records forwarded; once n have been forwarded the source is stopped: nothing more comes out (n = 0: nothing at all) *)
+LimitStep(cfg, st, msg) ==
+  IF st >= cfg.n THEN [st |-> st, out |-> <<>>]
+  ELSE IF IsWm(msg) THEN [st |-> st, out |-> <<msg>>]
+  ELSE [st |-> st + 1, out |-> <<msg>>]
+(* Layer P for limit: the output is the input cut after its n-th record (and empty for n = 0) *)
+RECURSIVE CutAfter(_, _)
+CutAfter(s, n) == IF n <= 0 \/ s = <<>> THEN <<>> ELSE IF IsRec(Head(s)) THEN <<Head(s)>> \o CutAfter(Tail(s), n - 1) ELSE <<Head(s)>> \o CutAfter(Tail(s), n)
+LimitOk(cfg, ins, outs) == outs = CutAfter(ins, cfg.n)
+
+(* ---------------------------------------------------------------- lookup join ------------------------------------------------------------- *)
+Matches(cfg, row) == SelectSeq(cfg.table, LAMBDA j : ~IsNullV(row[cfg.col]) /\ ~IsNullV(j[cfg.jcol]) /\ j[cfg.jcol] = row[cfg.col])
+LookupStep(cfg, st, msg) ==
+  IF IsWm(msg) THEN [st |-> st, out |-> <<msg>>]
+  ELSE [st |-> st, out |-> [i \in 1..Len(Matches(cfg, msg.v)) |-> Rec(msg.v \o Matches(cfg, msg.v)[i], msg.r, msg.t)]]
+RECURSIVE LookupBag(_, _, _)
+LookupBag(cfg, inBag, D) ==
+  IF D = {} THEN <<>>
+  ELSE LET r == CHOOSE x \in D : TRUE
+           rest == LookupBag(cfg, inBag, D \ {r})
+           RECURSIVE Add(_, _)
+           Add(b, js) == IF js = <<>> THEN b ELSE Add(BagPut(b, r \o Head(js), inBag[r]), Tail(js))
+       IN Add(rest, Matches(cfg, r))
+LookupBatch(cfg, inBag) == LookupBag(cfg, inBag, DOMAIN inBag)
+
+(* ---------------------------------------------------------------- unnest ------------------------------------------------------------------ *)
+UnnestRows(cfg, row) == [i \in 1..Len(row[cfg.col].l) |-> [row EXCEPT ![cfg.col] = row[cfg.col].l[i]]]
+UnnestStep(cfg, st, msg) ==
+  IF IsWm(msg) THEN [st |-> st, out |-> <<msg>>]
+  ELSE [st |-> st, out |-> [i \in 1..Len(UnnestRows(cfg, msg.v)) |-> Rec(UnnestRows(cfg, msg.v)[i], msg.r, msg.t)]]
+RECURSIVE UnnestBag(_, _, _)
+UnnestBag(cfg, inBag, D) ==
+  IF D = {} THEN <<>>
+  ELSE LET r == CHOOSE x \in D : TRUE
+           RECURSIVE Add(_, _)
+           Add(b, rs) == IF rs = <<>> THEN b ELSE Add(BagPut(b, Head(rs), inBag[r]), Tail(rs))
+       IN Add(UnnestBag(cfg, inBag, D \ {r}), UnnestRows(cfg, r))
+UnnestBatch(cfg, inBag) == UnnestBag(cfg, inBag, DOMAIN inBag)
 =============================================================================
